@@ -1,103 +1,62 @@
-(* Props/C15.v — statements only.  Each is closed by [exact] of a lemma proved in Proofs/C15Proofs.v.
+(* Props/C15.v — statements only.  Each is closed by [exact] of lemmas proved in Proofs/C15Proofs.v.
    numR is the real-number instance of the code-shaped model of decay_time/find_root
-   (Model/DecayTime.v: Newton iteration, at most 20 steps, |f| < 1e-10 stop, final 0.1% guard). *)
+   (Model/DecayTime.v: Newton iteration, at most 20 steps, |f| < 1e-10 stop, final 0.1% guard);
+   decay_time_cur is that model with the form of the early-exit test and of df that the translator
+   reads from /repo on every run (Gen/ActivationDat.v: "f(0) <= 0", "-sum(La*Ia*exp(..))"): reverting the
+   source flips a flag and the two full statements below no longer check. *)
 From Coq Require Import Reals ZArith QArith Qreals List Bool.
 From Coquelicot Require Import Coquelicot.
 From PT Require Import Dec Py IExpr ActEval ActEvalSound DecayTime C15Proofs.
 From PT Require C15Check.   (* the comparison rules the tie runs: kept in the build of this file *)
+From PT.Gen Require ActivationDat.
 Import ListNotations.
 Open Scope R_scope.
 
 (* whenever the model returns a time, the TRUE summed activity sum_i A_i(0) 2^(-t/T_i) is within 0.1%
-   of the target there, whatever the smallest requested rest time To was *)
-Theorem C15_returned_time_accurate : forall early_vs_target df_rest_factor rem To target t, 0 < target ->
-  decay_time_core R numR early_vs_target df_rest_factor (data_at rem To) To target = Ok (Ret t) ->
-  Rabs (true_A rem t - target) <= / 1000 * target.
-Proof. exact returned_time_accurate. Qed.
+   of the target there, whatever the smallest requested rest time To was; the function the code solves
+   is the true activity minus the target for every rest-time list, and the model computes it *)
+Theorem C15_returned_time_accurate :
+  (forall rem To target t, 0 < target ->
+     decay_time_cur (data_at rem To) To target = Ok (Ret t) ->
+     Rabs (true_A rem t - target) <= / 1000 * target) /\
+  (forall rem To target t, fR (data_at rem To) To target t = true_A rem t - target) /\
+  (forall data To target t v, f R numR data To target t = Ok v -> v = fR data To target t).
+Proof.
+  exact (conj (fun rem To target t => returned_time_accurate _ _ rem To target t) (conj f_is_true_activity f_R)).
+Qed.
 Print Assumptions C15_returned_time_accurate.
 
-(* the function the code solves is the true activity minus the target, for every rest-time list *)
-Theorem C15_f_is_true_activity : forall rem To target t,
-  fR (data_at rem To) To target t = true_A rem t - target.
-Proof. exact f_is_true_activity. Qed.
-Print Assumptions C15_f_is_true_activity.
-
-(* the model computes f with fR (when no exp overflows); decay_time_core's two boolean parameters select
-   the form of the early-exit test and of df that the source has (Gen/ActivationDat.v) *)
-Theorem C15_model_f : forall data To target t v, f R numR data To target t = Ok v -> v = fR data To target t.
-Proof. exact f_R. Qed.
-Print Assumptions C15_model_f.
-
-(* REFUTED at full strength: "returns 0 exactly when the activity at removal is at or below the target" *)
-Theorem C15_zero_iff_already_below_refuted :
-  exists rem To target, physical_rem rem /\ 0 < target /\ target < true_A rem 0 /\
-    forall dff, decay_time_core R numR true dff (data_at rem To) To target = Ok RetZero.
-Proof. exact zero_iff_already_below_refuted. Qed.
-Print Assumptions C15_zero_iff_already_below_refuted.
-
-(* what does hold: 0 is returned exactly when A(0) < 2 target (the test is f(0) < target with f = A - target) *)
-Theorem C15_zero_iff_below_twice_partial : forall dff data To target f0,
-  f R numR data To target 0 = Ok f0 ->
-  (decay_time_core R numR true dff data To target = Ok RetZero <-> sumR data To 0 < 2 * target).
-Proof. exact zero_iff_below_twice. Qed.
-Print Assumptions C15_zero_iff_below_twice_partial.
-
-Theorem C15_already_below_returns_zero_partial : forall dff rem To target f0, 0 < target ->
+(* it returns 0 exactly when the activity at removal is already at or below the target *)
+Theorem C15_zero_iff_already_below : forall rem To target f0,
   f R numR (data_at rem To) To target 0 = Ok f0 ->
-  true_A rem 0 <= target -> decay_time_core R numR true dff (data_at rem To) To target = Ok RetZero.
-Proof. exact already_below_returns_zero. Qed.
-Print Assumptions C15_already_below_returns_zero_partial.
+  (decay_time_cur (data_at rem To) To target = Ok RetZero <-> true_A rem 0 <= target).
+Proof. exact zero_iff_already_below. Qed.
+Print Assumptions C15_zero_iff_already_below.
 
-(* the model with the test written "f(0) <= 0" (what a repaired decay_time would be; the translator
-   selects this variant when the source reads so) returns 0 exactly when A(0) <= target *)
-Theorem C15_zero_iff_already_below_repaired : forall dff data To target f0,
-  f R numR data To target 0 = Ok f0 ->
-  (decay_time_core R numR false dff data To target = Ok RetZero <-> sumR data To 0 <= target).
-Proof. exact zero_iff_already_below_repaired. Qed.
-Print Assumptions C15_zero_iff_already_below_repaired.
+(* the df of the model is the derivative of f, for every rest-time list *)
+Theorem C15_df_is_derivative : forall data To target t v,
+  df R numR ActivationDat.dt_df_rest_factor data To t = Ok v -> is_derive (fR data To target) t v.
+Proof. exact df_is_derivative. Qed.
+Print Assumptions C15_df_is_derivative.
 
-(* REFUTED at full strength: "df is the derivative of f" *)
-Theorem C15_df_is_derivative_refuted :
-  exists data To target t, ~ is_derive (fR data To target) t (dfR data To t).
-Proof. exact df_is_derivative_refuted. Qed.
-Print Assumptions C15_df_is_derivative_refuted.
-
-(* what does hold: df = (1 - To) f', so it is the derivative when 0 is among the rest times *)
-Theorem C15_df_is_derivative_partial : forall data To target t,
-  is_derive (fR data To target) t (derR data To t) /\ dfR data To t = (1 - To) * derR data To t /\
-  is_derive (fR data 0 target) t (dfR data 0 t).
-Proof.
-  exact (fun data To target t => conj (fR_is_derive data To target t)
-                                      (conj (dfR_factor data To t) (df_is_derivative_partial data target t))).
-Qed.
-Print Assumptions C15_df_is_derivative_partial.
-
-(* what the model's df computes, and that the variant "-sum(La*Ia*exp(..))" is the derivative *)
-Theorem C15_model_df : forall dff data To t v, df R numR dff data To t = Ok v ->
-  v = if dff then dfR data To t else derR data To t.
-Proof. exact model_df. Qed.
-Print Assumptions C15_model_df.
-
-Theorem C15_df_is_derivative_repaired : forall data To target t v, df R numR false data To t = Ok v ->
-  is_derive (fR data To target) t v.
-Proof. exact df_is_derivative_repaired. Qed.
-Print Assumptions C15_df_is_derivative_repaired.
-
-(* the time the property asks for is unique and does not depend on the rest-time list *)
-Theorem C15_spec_root_unique : forall rem target t1 t2, physical_rem rem -> 0 < target ->
-  true_A rem t1 = target -> true_A rem t2 = target -> t1 = t2.
-Proof. exact spec_root_unique. Qed.
-Print Assumptions C15_spec_root_unique.
-
-Theorem C15_rest_list_independent : forall rem To To' target t t', physical_rem rem -> 0 < target ->
-  fR (data_at rem To) To target t = 0 -> fR (data_at rem To') To' target t' = 0 -> t = t'.
-Proof. exact rest_list_independent. Qed.
+(* the time the property asks for is unique and, over the reals, does not depend on the rest-time list *)
+Theorem C15_rest_list_independent :
+  (forall rem target t1 t2, physical_rem rem -> 0 < target ->
+     true_A rem t1 = target -> true_A rem t2 = target -> t1 = t2) /\
+  (forall rem To To' target t t', physical_rem rem -> 0 < target ->
+     fR (data_at rem To) To target t = 0 -> fR (data_at rem To') To' target t' = 0 -> t = t').
+Proof. exact (conj spec_root_unique rest_list_independent). Qed.
 Print Assumptions C15_rest_list_independent.
 
-(* the sign decisions the tie uses for the 0.1% postcondition are theorems about the meaning *)
-Theorem C15_sign_decision_sound : forall e, sgn_means (sign_of e) (evalR ln2_env_R e).
-Proof. exact sign_of_sound. Qed.
-Print Assumptions C15_sign_decision_sound.
+(* REFUTED at full strength (known finding): the code-shaped model - exp raises above 709.78 as in the
+   code - does depend on the rest-time list and raises an error other than RuntimeError: one product of
+   1 uCi, half-life 3.6 s, target 2 uCi: rest_times=[2] -> OverflowError, rest_times=[0] -> 0 *)
+Theorem C15_rest_list_independence_refuted :
+  exists rem To target, physical_rem rem /\ 0 < target /\
+    decay_time_cur (data_at rem To) To target = Err OtherErr /\
+    decay_time_cur (data_at rem 0) 0 target = Ok RetZero.
+Proof. exact rest_list_independence_refuted. Qed.
+Print Assumptions C15_rest_list_independence_refuted.
 
 (* Newton from the left: f is convex and decreasing, so a step with the true derivative from a point
    left of the root moves towards the root and does not pass it (convergence within the 20 steps is
@@ -107,3 +66,8 @@ Theorem C15_newton_left_monotone : forall data To target x r, physical_data data
   x <= x - fR data To target x / derR data To x <= r.
 Proof. exact newton_left_monotone. Qed.
 Print Assumptions C15_newton_left_monotone.
+
+(* the sign decisions the tie uses for the 0.1% postcondition are theorems about the meaning *)
+Theorem C15_sign_decision_sound : forall e, sgn_means (sign_of e) (evalR ln2_env_R e).
+Proof. exact sign_of_sound. Qed.
+Print Assumptions C15_sign_decision_sound.
